@@ -3,7 +3,7 @@
 // This source code is licensed under the MIT license found in the
 // LICENSE file in the root directory of this source tree.
 
-use alloc::vec::Vec;
+use alloc::{string::ToString, vec::Vec};
 
 use crypto::ElementHasher;
 use math::FieldElement;
@@ -139,7 +139,14 @@ impl OodFrame {
             return Err(DeserializationError::UnconsumedBytes);
         }
 
-        // if there is a Lagrange kernel, we treat its associated entries separately above
+        // if there is a Lagrange kernel, we treat its associated entries separately above; the
+        // Lagrange kernel column is part of the auxiliary segment, so there must be one
+        if lagrange_kernel_frame.is_some() && aux_trace_width == 0 {
+            return Err(DeserializationError::InvalidValue(
+                "a Lagrange kernel frame was provided, but the trace has no auxiliary segment"
+                    .to_string(),
+            ));
+        }
         let aux_trace_width = aux_trace_width - (lagrange_kernel_frame.is_some() as usize);
 
         // parse main and auxiliary trace evaluation frames. This does the reverse operation done in
